@@ -530,6 +530,9 @@ func mayModify(n ast.Node, paths []string, ctx *typeCtx) bool {
 			}
 		case *ast.UnaryExpr:
 			if t.Op == token.AND {
+				if _, fresh := stripParens(t.X).(*ast.CompositeLit); fresh {
+					return true // `&T{…}` allocates a new value: nothing existing is exposed
+				}
 				hit = hit || related(t.X)
 			}
 		case *ast.CallExpr:
